@@ -6,6 +6,8 @@
     step) appear in the statements as they are, and are tied to numpy bit-exactly by the correspondence. *)
 From Coq Require Import PrimFloat ZArith List Bool String.
 Require Import QV.Model.Compare QV.Proofs.Compare.
+From Coq Require Import Rdefinitions Rbasic_fun R_sqrt.
+Require QV.Proofs.CompareReal.
 Import ListNotations.
 Local Open Scope string_scope.
 
@@ -22,6 +24,39 @@ Theorem C19_compare_values_spec : forall o e c,
     (iscomplex_pair e c = Ok true /\
      Agree (close_c o) neg_c (cv_phase o) (cast_with to_c e) (cast_with to_c c)))).
 Proof. exact compare_values_spec. Qed.
+
+(** the binary64 closeness test against the real-number rule of the property ([FR] = the real value of a finite
+    double, through Flocq's semantics of the primitive floats): for finite inputs, non-negative tolerances and no
+    overflow in the three intermediate results, [isclose_f] = true implies |c-e| <= (T + 2^-1075)(1 + 2^-51) and
+    [isclose_f] = false implies |c-e| >= (T - 2^-1074)(1 - 2^-51), where T = atol + rtol*|e| exactly
+    ([u64] = 2^-53, [eta64] = 2^-1075): the verdict differs from the exact rule only inside that band *)
+Theorem C19_isclose_real_band : forall atol rtol eqn c e,
+  CompareReal.fin c -> CompareReal.fin e -> CompareReal.fin atol -> CompareReal.fin rtol ->
+  (0 <= CompareReal.FR atol)%R -> (0 <= CompareReal.FR rtol)%R ->
+  CompareReal.fin (c - e)%float -> CompareReal.fin (rtol * abs e)%float ->
+  CompareReal.fin (atol + rtol * abs e)%float ->
+  let D := Rbasic_fun.Rabs (CompareReal.FR c - CompareReal.FR e)%R in
+  let T := (CompareReal.FR atol + CompareReal.FR rtol * Rbasic_fun.Rabs (CompareReal.FR e))%R in
+  (isclose_f atol rtol eqn c e = true -> (D <= (T + CompareReal.eta64) * (1 + 4 * CompareReal.u64))%R) /\
+  (isclose_f atol rtol eqn c e = false -> ((T - 2 * CompareReal.eta64) * (1 - 4 * CompareReal.u64) <= D)%R).
+Proof. exact CompareReal.isclose_f_band. Qed.
+
+Theorem C19_u64_value : CompareReal.u64 = (/ 9007199254740992)%R.
+Proof. exact CompareReal.u64_val. Qed.
+
+(** the complex modulus of the model off the axes, sqrt(re*re + im*im) in binary64, lies within (1-u)^2 .. (1+u)^2
+    (u = 2^-53) of the exact sqrt(re^2+im^2) when the squares neither underflow nor overflow (C hypot, which numpy
+    uses, is within one ulp of the same number: the two can disagree on a verdict only within a few 2^-52 of the edge) *)
+Theorem C19_modulus_model_error : forall a b,
+  CompareReal.fin a -> CompareReal.fin b ->
+  PrimFloat.eqb a fzero = false -> PrimFloat.eqb b fzero = false ->
+  CompareReal.fin (a * a)%float -> CompareReal.fin (b * b)%float -> CompareReal.fin (a * a + b * b)%float ->
+  (CompareReal.tiny64 <= CompareReal.FR a * CompareReal.FR a)%R ->
+  (CompareReal.tiny64 <= CompareReal.FR b * CompareReal.FR b)%R ->
+  let N := R_sqrt.sqrt (CompareReal.FR a * CompareReal.FR a + CompareReal.FR b * CompareReal.FR b)%R in
+  (N * ((1 - CompareReal.u64) * (1 - CompareReal.u64)) <= CompareReal.FR (hypot a b)
+   <= N * ((1 + CompareReal.u64) * (1 + CompareReal.u64)))%R.
+Proof. exact CompareReal.hypot_model_error. Qed.
 
 (** the False verdict, exactly: the inputs are not cast-able (a ragged nest met by np.iscomplexobj, or a failing
     cast), the shapes differ, or (usable atol) neither the data nor — on request — the negated data are all close *)
@@ -126,6 +161,30 @@ Theorem C19_recursive_raise_spec : forall o e c k,
   (k = EValue /\ PrimFloat.leb fone (r_atol o) = true)
   \/ cmp_rec (lo_of o) false "root" e c = Raise k \/ cmp_rec (lo_of o) true "root" e c = Raise k.
 Proof. exact compare_recursive_raise_spec. Qed.
+
+(** compare_molrecs (relative_geoms="exact"): it is compare_recursive on the normalised records ... *)
+Theorem C19_molrecs_is_recursive : forall o e c e' c',
+  massage true e = Ok e' -> massage true c = Ok c' -> compare_molrecs o e c = compare_recursive o e' c'.
+Proof. exact molrecs_is_recursive. Qed.
+
+(** ... the normalisation (fragment_files to str, fragment_separators to int, provenance version popped, bonds as
+    (min, max, order) stably sorted on the first atom) is idempotent: normalising a normalised record changes
+    nothing (second pass without the version pop, which by construction cannot be repeated) ... *)
+Theorem C19_molrecs_normalise_idempotent : forall popv t t', massage popv t = Ok t' -> massage false t' = Ok t'.
+Proof. exact massage_idempotent. Qed.
+
+(** ... the generator version never reaches the comparison, and a bond may be listed in either direction *)
+Theorem C19_molrecs_version_forgiven : forall v d,
+  norm_provenance true (TDict (set_val "version" v d)) = norm_provenance true (TDict d).
+Proof. exact version_forgiven. Qed.
+
+Theorem C19_molrecs_bond_orientation : forall na nb a b bo, a <> b ->
+  norm_bond (TList [TSc na (SInt a); TSc nb (SInt b); bo]) = norm_bond (TList [TSc nb (SInt b); TSc na (SInt a); bo]).
+Proof. exact bond_orientation. Qed.
+
+(** ProtoModel.compare is compare_recursive on the models' dicts *)
+Theorem C19_protomodel_compare : forall o self other, protomodel_compare o self other = compare_recursive o self other.
+Proof. reflexivity. Qed.
 
 (** the rule at a float leaf: close, or close against the negation when the sign flip is on *)
 Theorem C19_float_leaf_spec : forall o ph np np' e c,
@@ -246,7 +305,26 @@ Example C19_ex_fixed_ragged :
   compare_recursive (r6 [] (EpBool false)) (TDict [("a", fl 1)]) (TDict [("a", ragged)]) = Ok false.
 Proof. repeat split. Qed.
 
+(** a small molecule record: version differs, one bond reversed, separators as numpy ints: equal after normalisation *)
+Definition bond (a b : Z) := TList [TSc false (SInt a); TSc false (SInt b); fl 1].
+Definition rec_e := TDict [("geom", TArr DFloat [3%nat] [SFloat 0; SFloat 0; SFloat 1]);
+                           ("fragment_separators", TArr DInt [1%nat] [SInt 2]);
+                           ("provenance", TDict [("creator", TSc false (SStr "QCElemental")); ("version", TSc false (SStr "v1"))]);
+                           ("connectivity", TList [bond 0 1; bond 2 0])].
+Definition rec_c := TDict [("geom", TArr DFloat [3%nat] [SFloat 0; SFloat 0; SFloat 1]);
+                           ("fragment_separators", TList [TSc true (SInt 2)]);
+                           ("provenance", TDict [("creator", TSc false (SStr "QCElemental")); ("version", TSc false (SStr "v2"))]);
+                           ("connectivity", TList [bond 1 0; bond 0 2])].
+Example C19_ex_molrecs :
+  compare_molrecs (r6 [] (EpBool false)) rec_e rec_c = Ok true /\
+  compare_recursive (r6 [] (EpBool false)) rec_e rec_c = Ok false /\
+  (exists t, massage true rec_e = Ok t /\ massage false t = Ok t /\ massage true t = Raise EKey).
+Proof. repeat split. eexists. repeat split. Qed.
+
 Print Assumptions C19_compare_values_spec.
+Print Assumptions C19_isclose_real_band.
+Print Assumptions C19_u64_value.
+Print Assumptions C19_modulus_model_error.
 Print Assumptions C19_compare_values_false_spec.
 Print Assumptions C19_compare_values_total.
 Print Assumptions C19_compare_values_raise_spec.
@@ -262,6 +340,11 @@ Print Assumptions C19_name_is_site.
 Print Assumptions C19_no_false_pass.
 Print Assumptions C19_no_false_fail.
 Print Assumptions C19_recursive_raise_spec.
+Print Assumptions C19_molrecs_is_recursive.
+Print Assumptions C19_molrecs_normalise_idempotent.
+Print Assumptions C19_molrecs_version_forgiven.
+Print Assumptions C19_molrecs_bond_orientation.
+Print Assumptions C19_protomodel_compare.
 Print Assumptions C19_float_leaf_spec.
 Print Assumptions C19_forgive_key_boundary.
 Print Assumptions C19_forgive_by_segments.
